@@ -76,6 +76,7 @@ inductive Ev where
   | cberr                               -- get_user_data was left through an LPC error (longjmp to the backend)
   | closed
   | crash (why : String)
+  | setcall (ok : Bool)                 -- get_char() / input_to() returned this
   deriving Repr, BEq, DecidableEq
 
 /-! ### interactive flags and decoder state -/
@@ -628,6 +629,87 @@ def addConsoleLine (s : S) (bytes : List Byte) : Except String S :=
       | .error e => .error e
       | .ok t2 => setCmdFlag { s1 with text := t2, tend := s1.tend + len }
 
+/-! ### get_char() / input_to(): mode switches made by the user object (telnet port) -/
+
+def telnetWillSga : List Byte := [bIAC, bWILL, u8 optSGA, 0]
+def telnetWontSga : List Byte := [bIAC, bWONT, u8 optSGA, 0]
+def telnetYesEcho : List Byte := [bIAC, bWILL, u8 optECHO, 0]
+def telnetNoEcho : List Byte := [bIAC, bWONT, u8 optECHO, 0]
+
+/-- set_telnet_single_char (network user): nothing unless the client speaks telnet; LINEMODE clients get the LM_MODE
+    sub-negotiation (the global `telnet_sb_lm_mode[4]` is overwritten), others WILL / WONT SGA -/
+def setTelnetSingleChar (d : Dec) (single : Bool) : Dec × List Byte :=
+  if !d.fl.usingTelnet then (d, [])
+  else if d.fl.usingLinemode then
+    let d' : Dec := { d with lmMode := u8 (if single then modeTRAPSIG else modeTRAPSIG ||| modeEDIT) }
+    (d', addMsg (telnetSbLmMode d'))
+  else (d, addMsg (if single then telnetWillSga else telnetWontSga))
+
+/-- set_call(ob, sent, flags) as reached from get_char() (`single`) / input_to(), no other input_to pending:
+    NOECHO -> IAC WILL ECHO; SINGLE_CHAR -> set_telnet_single_char(1) and typed-ahead characters are flagged -/
+def setCall (s : S) (single noecho : Bool) : Except String (S × List Byte) :=
+  let tx1 := if noecho then addMsg telnetYesEcho else []
+  if single then
+    let d1 : Dec := { s.dec with fl := { s.dec.fl with single := true } }
+    match setCmdFlag { s with dec := (setTelnetSingleChar d1 true).1 } with
+    | .error e => .error e
+    | .ok s' => .ok (s', tx1 ++ (setTelnetSingleChar d1 true).2)
+  else .ok (s, tx1)
+
+/-- `char tmp[MAX_TEXT]` of reframe_single_char_input: `tmp[to++] = ..` -/
+def tmpPush (acc x : List Byte) : Except String (List Byte) :=
+  if acc.length + x.length ≤ MAXT then .ok (acc ++ x) else .error "reframe_single_char_input: write behind tmp[MAX_TEXT]"
+
+/-- the second loop of reframe_single_char_input over `text[text_start .. text_end)`; `skip` = the LF consumed by the
+    `from++` of the CR LF branch.  `none` = "no room: leave the buffer as it is" -/
+def reframeLoop : List Byte → Bool → List Byte → Except String (Option (List Byte))
+  | [], _, acc => .ok (some acc)
+  | _ :: rest, true, acc => reframeLoop rest false acc
+  | c :: rest, false, acc =>
+    if acc.length + reframeNeed ≥ MAXT - reframeReserve then .ok none
+    else if c = bCR then
+      if rest.head? = some bLF then
+        match tmpPush acc [bSP, bBS, bNUL] with
+        | .error e => .error e
+        | .ok acc' => reframeLoop rest true acc'
+      else reframeLoop rest false acc
+    else
+      match tmpPush acc [c] with
+      | .error e => .error e
+      | .ok acc' => reframeLoop rest false acc'
+
+/-- reframe_single_char_input: text that arrived raw in single-char mode gets the line-mode framing -/
+def reframe (s : S) : Except String S :=
+  if s.tstart > s.tend ∨ s.tend > s.text.length then .error "reframe_single_char_input reads outside text[]" else
+  let pend := slice s.text s.tstart s.tend
+  if !pend.contains bCR then .ok s else
+  match reframeLoop pend false [] with
+  | .error e => .error e
+  | .ok none => .ok s
+  | .ok (some tmp) =>
+    match writeAt s.text 0 tmp with                               -- memcpy (ip->text, tmp, to)
+    | .error e => .error e
+    | .ok t =>
+      match writeAt t tmp.length [0] with                         -- ip->text[to] = '\0'
+      | .error e => .error e
+      | .ok t2 => setCmdFlag { s with text := t2, tstart := 0, tend := tmp.length }
+
+/-- call_function_interactive with an input_to pending, the part that concerns the input buffer: if single-char mode
+    was on it ends (telnet option message) and the buffered raw text is reframed -/
+def endInput (s : S) : Except String (S × List Byte) :=
+  if s.dec.fl.single then
+    let d1 : Dec := { s.dec with fl := { s.dec.fl with single := false } }
+    match reframe { s with dec := (setTelnetSingleChar d1 false).1 } with
+    | .error e => .error e
+    | .ok s' => .ok (s', (setTelnetSingleChar d1 false).2)
+  else .ok (s, [])
+
+/-- the NOECHO branch at the end of get_user_command: IAC WONT ECHO on the telnet port (the flag is cleared) -/
+def noEchoTx (noEcho : Bool) (s : S) : List Byte :=
+  if noEcho && s.port == .telnet then addMsg telnetNoEcho else []
+
+def txEv (tx : List Byte) : List Ev := if tx.isEmpty then [] else [.tx tx]
+
 /-! ### scripted runs (the case language of the harness) -/
 inductive Op where
   | iflagSingle
@@ -639,6 +721,10 @@ inductive Op where
   | drain
   | finish
   | line (bytes : List Byte)
+  | getchar (noecho : Bool)
+  | inputto (noecho : Bool)
+  | serve
+  | wpipe (bytes : List Byte)
   deriving Repr, BEq
 
 def stEv (s : S) : Ev := .st s.tstart s.tend s.dec.stateNat s.dec.sbPos s.dec.fl.toNat
@@ -653,10 +739,13 @@ structure Run where
   s : S
   evs : List Ev := []       -- in order
   dead : Bool := false      -- crashed: nothing more is executed
+  inputTo : Bool := false   -- `ip->input_to != 0`: an input_to() / get_char() is pending
+  noEcho : Bool := false    -- NOECHO
 
 def Run.add (r : Run) (s : S) (evs : List Ev) : Run :=
   let tail := afterStep s
-  { s := s, evs := r.evs ++ evs ++ tail, dead := r.dead || tail.any (fun e => match e with | .crash _ => true | _ => false) }
+  { r with s := s, evs := r.evs ++ evs ++ tail,
+           dead := r.dead || tail.any (fun e => match e with | .crash _ => true | _ => false) }
 
 def Run.crash (r : Run) (why : String) : Run := { r with evs := r.evs ++ [.crash why], dead := true }
 
@@ -672,7 +761,29 @@ def doExtract (r : Run) : Run × Bool :=
   match getUserCommand r.s with
   | .error e => (r.crash e, false)
   | .ok (s, none) => (r.add s [.nocmd], false)
-  | .ok (s, some l) => (r.add s [.cmd l], true)
+  | .ok (s, some l) => ({ r with noEcho := false }.add s ([Ev.cmd l] ++ txEv (noEchoTx r.noEcho s)), true)
+
+/-- `serve`: get_user_command, then - if a line came back and an input_to / get_char is pending -
+    call_function_interactive (what process_user_command does with a line that does not start with `!`) -/
+def doServe (r : Run) : Run :=
+  if r.dead || r.s.closed then r else
+  match getUserCommand r.s with
+  | .error e => r.crash e
+  | .ok (s, none) => r.add s [.nocmd]
+  | .ok (s, some l) =>
+    if r.inputTo then
+      match endInput s with
+      | .error e => r.crash e
+      | .ok (s', tx) => { r with noEcho := false, inputTo := false }.add s' ([Ev.cmd l] ++ txEv (noEchoTx r.noEcho s ++ tx))
+    else { r with noEcho := false }.add s ([Ev.cmd l] ++ txEv (noEchoTx r.noEcho s))
+
+/-- get_char() / input_to() called by the user object: refused (0) while another one is pending -/
+def doSetCall (r : Run) (single noecho : Bool) : Run :=
+  if r.s.closed then r else
+  if r.inputTo then r.add r.s [.setcall false] else
+  match setCall r.s single noecho with
+  | .error e => r.crash e
+  | .ok (s, tx) => { r with inputTo := true, noEcho := r.noEcho || noecho }.add s ([Ev.setcall true] ++ txEv tx)
 
 def drainLoop : Nat → Run → Run
   | 0, r => r
@@ -685,6 +796,32 @@ def finishLoop (o : Oracle) : Nat → Run → Run
   | fuel + 1, r =>
     if r.s.sock.isEmpty || r.dead || r.s.closed then r
     else finishLoop o fuel (drainLoop 5000 (doRead o r))
+
+/-- `line`: one blob handed to add_console_line -/
+def doLine (r : Run) (b : List Byte) : Run :=
+  if r.s.closed then r else
+  match addConsoleLine r.s b with
+  | .error e => r.crash e
+  | .ok s => r.add s [.cl b]
+
+/-- lib/async/console_worker.c: the worker thread reads at most `CONSOLE_MAX_LINE - consoleReadReserve` bytes per
+    `read (STDIN_FILENO, line_buffer, ..)`; each read is one blob -/
+def workerChunks : Nat → List Byte → List (List Byte)
+  | 0, _ => []
+  | fuel + 1, data =>
+    if data.isEmpty ∨ consoleMaxLine - consoleReadReserve = 0 then []
+    else data.take (consoleMaxLine - consoleReadReserve) :: workerChunks fuel (data.drop (consoleMaxLine - consoleReadReserve))
+
+/-- one blob through the worker and the console branch of process_io: `char line_buffer[CONSOLE_MAX_LINE]` on both
+    sides, `line_buffer[bytes_read] = '\0'`, enqueue / dequeue of `bytes_read + 1` bytes, add_console_line -/
+def doLineW (r : Run) (c : List Byte) : Run :=
+  if r.dead then r
+  else if c.length + 1 > consoleMaxLine then r.crash "console worker: line_buffer[bytes_read] behind line_buffer[CONSOLE_MAX_LINE]"
+  else doLine r c
+
+/-- `wpipe`: bytes arriving on the console's stdin pipe -/
+def doWpipe (r : Run) (data : List Byte) : Run :=
+  (workerChunks (data.length + 1) data).foldl doLineW r
 
 def stepOp (o : Oracle) (r : Run) (op : Op) : Run :=
   if r.dead then r else
@@ -701,11 +838,11 @@ def stepOp (o : Oracle) (r : Run) (op : Op) : Run :=
   | .extract => (doExtract r).1
   | .drain => drainLoop 5000 r
   | .finish => finishLoop o 20000 r
-  | .line b =>
-    if r.s.closed then r else
-    match addConsoleLine r.s b with
-    | .error e => r.crash e
-    | .ok s => r.add s [.cl b]
+  | .line b => doLine r b
+  | .wpipe b => doWpipe r b
+  | .getchar ne => doSetCall r true ne
+  | .inputto ne => doSetCall r false ne
+  | .serve => doServe r
 
 def run (p : Port) (o : Oracle) (ops : List Op) : Run :=
   let s0 := S.init p
